@@ -135,6 +135,21 @@ theorem chunk_u8 (cs : List Bytes) (tail : Bytes) (k : Nat) (x : UInt8) (hk : cs
     (hoff : ((cs.take k).map List.length).sum = off) : beAt (cs.flatten ++ tail) off 1 = x.toNat := by
   rw [beAt_nth cs tail k _ hk off hoff]; simp [beAt]
 
+/-- "the elements appear in list order": every element of `bss` is found intact in `bs`, the k-th one starting at
+    `start` + the total length of the elements before it -/
+def InOrderAt (bs : Bytes) (start : Nat) (bss : List Bytes) : Prop :=
+  ∀ k (hk : k < bss.length), (bs.drop (start + ((bss.take k).map List.length).sum)).take bss[k].length = bss[k]
+
+theorem inOrderAt_of_eq (bs pre : Bytes) (bss : List Bytes) (tail : Bytes) (start : Nat) (h : bs = pre ++ bss.flatten ++ tail)
+    (hs : pre.length = start) : InOrderAt bs start bss := by
+  intro k hk
+  rw [h, ← hs]
+  exact flatten_nth_window pre bss tail k hk
+
+/-- the second byte-pair of an OXM header: field number shifted left by one, has-mask bit -/
+theorem fldByte_toNat : ∀ n < 128, (shl8 (UInt8.ofNat n) 1).toNat = n * 2 ∧ (shl8 (UInt8.ofNat n) 1 ||| 1).toNat = n * 2 + 1 := by
+  decide
+
 /-- discharges `piecesLen (List.take k [pieces…]) = off` (header lengths are taken from the context) -/
 macro "lay_off" : tactic =>
   `(tactic| (simp [piecesLen, pCopy, pU8, pU16, pU32, pU64, pSkip, pCopyAdv, Piece.adv] <;> omega))
@@ -144,5 +159,145 @@ macro "lay_sum" : tactic => `(tactic| (simp <;> omega))
 
 /-- turns `fl ∈ layoutOf "K"` into the disjunction of the table rows -/
 macro "lay_rows" h:ident : tactic => `(tactic| simp [layoutOf, Spec.layouts, List.lookup] at $h:ident)
+
+/-- goal `FieldAt v out ⟨name, off, w, .num⟩` where `hf : fill L pieces = .ok out`: find the piece that is the field -/
+macro "lay_num" hf:ident : tactic => `(tactic| (
+  show beAt _ _ _ = _ % 2 ^ (8 * _)
+  first
+  | (rw [← n8_toNat]; first
+    | exact fill_u8_at _ _ _ $hf 0 _ rfl _ (by lay_off)
+    | exact fill_u8_at _ _ _ $hf 1 _ rfl _ (by lay_off)
+    | exact fill_u8_at _ _ _ $hf 2 _ rfl _ (by lay_off)
+    | exact fill_u8_at _ _ _ $hf 3 _ rfl _ (by lay_off)
+    | exact fill_u8_at _ _ _ $hf 4 _ rfl _ (by lay_off)
+    | exact fill_u8_at _ _ _ $hf 5 _ rfl _ (by lay_off)
+    | exact fill_u8_at _ _ _ $hf 6 _ rfl _ (by lay_off)
+    | exact fill_u8_at _ _ _ $hf 7 _ rfl _ (by lay_off)
+    | exact fill_u8_at _ _ _ $hf 8 _ rfl _ (by lay_off)
+    | exact fill_u8_at _ _ _ $hf 9 _ rfl _ (by lay_off)
+    | exact fill_u8_at _ _ _ $hf 10 _ rfl _ (by lay_off)
+    | exact fill_u8_at _ _ _ $hf 11 _ rfl _ (by lay_off))
+  | (rw [← n16_toNat]; first
+    | exact fill_be16_at _ _ _ $hf 0 _ rfl _ (by lay_off)
+    | exact fill_be16_at _ _ _ $hf 1 _ rfl _ (by lay_off)
+    | exact fill_be16_at _ _ _ $hf 2 _ rfl _ (by lay_off)
+    | exact fill_be16_at _ _ _ $hf 3 _ rfl _ (by lay_off)
+    | exact fill_be16_at _ _ _ $hf 4 _ rfl _ (by lay_off)
+    | exact fill_be16_at _ _ _ $hf 5 _ rfl _ (by lay_off)
+    | exact fill_be16_at _ _ _ $hf 6 _ rfl _ (by lay_off)
+    | exact fill_be16_at _ _ _ $hf 7 _ rfl _ (by lay_off)
+    | exact fill_be16_at _ _ _ $hf 8 _ rfl _ (by lay_off)
+    | exact fill_be16_at _ _ _ $hf 9 _ rfl _ (by lay_off)
+    | exact fill_be16_at _ _ _ $hf 10 _ rfl _ (by lay_off)
+    | exact fill_be16_at _ _ _ $hf 11 _ rfl _ (by lay_off))
+  | (rw [← n32_toNat]; first
+    | exact fill_be32_at _ _ _ $hf 0 _ rfl _ (by lay_off)
+    | exact fill_be32_at _ _ _ $hf 1 _ rfl _ (by lay_off)
+    | exact fill_be32_at _ _ _ $hf 2 _ rfl _ (by lay_off)
+    | exact fill_be32_at _ _ _ $hf 3 _ rfl _ (by lay_off)
+    | exact fill_be32_at _ _ _ $hf 4 _ rfl _ (by lay_off)
+    | exact fill_be32_at _ _ _ $hf 5 _ rfl _ (by lay_off)
+    | exact fill_be32_at _ _ _ $hf 6 _ rfl _ (by lay_off)
+    | exact fill_be32_at _ _ _ $hf 7 _ rfl _ (by lay_off)
+    | exact fill_be32_at _ _ _ $hf 8 _ rfl _ (by lay_off)
+    | exact fill_be32_at _ _ _ $hf 9 _ rfl _ (by lay_off)
+    | exact fill_be32_at _ _ _ $hf 10 _ rfl _ (by lay_off)
+    | exact fill_be32_at _ _ _ $hf 11 _ rfl _ (by lay_off))
+  | (rw [← n64_toNat]; first
+    | exact fill_be64_at _ _ _ $hf 0 _ rfl _ (by lay_off)
+    | exact fill_be64_at _ _ _ $hf 1 _ rfl _ (by lay_off)
+    | exact fill_be64_at _ _ _ $hf 2 _ rfl _ (by lay_off)
+    | exact fill_be64_at _ _ _ $hf 3 _ rfl _ (by lay_off)
+    | exact fill_be64_at _ _ _ $hf 4 _ rfl _ (by lay_off)
+    | exact fill_be64_at _ _ _ $hf 5 _ rfl _ (by lay_off)
+    | exact fill_be64_at _ _ _ $hf 6 _ rfl _ (by lay_off)
+    | exact fill_be64_at _ _ _ $hf 7 _ rfl _ (by lay_off)
+    | exact fill_be64_at _ _ _ $hf 8 _ rfl _ (by lay_off)
+    | exact fill_be64_at _ _ _ $hf 9 _ rfl _ (by lay_off)
+    | exact fill_be64_at _ _ _ $hf 10 _ rfl _ (by lay_off)
+    | exact fill_be64_at _ _ _ $hf 11 _ rfl _ (by lay_off))))
+
+/-- goal `FieldAt v out ⟨name, off, 4, .hdrWord⟩` where `hw : mfHeader f = .ok w` and `hf : fill L pieces = .ok out` -/
+macro "lay_hdr" hw:ident hf:ident : tactic => `(tactic| (
+  intro c fld hm' l' eid val mask hsf h7
+  rw [← mfHeader_oxm _ _ $hw c fld hm' l' eid val mask hsf h7]
+  first
+  | exact fill_be32_at _ _ _ $hf 0 _ rfl _ (by lay_off)
+  | exact fill_be32_at _ _ _ $hf 1 _ rfl _ (by lay_off)
+  | exact fill_be32_at _ _ _ $hf 2 _ rfl _ (by lay_off)
+  | exact fill_be32_at _ _ _ $hf 3 _ rfl _ (by lay_off)
+  | exact fill_be32_at _ _ _ $hf 4 _ rfl _ (by lay_off)
+  | exact fill_be32_at _ _ _ $hf 5 _ rfl _ (by lay_off)
+  | exact fill_be32_at _ _ _ $hf 6 _ rfl _ (by lay_off)
+  | exact fill_be32_at _ _ _ $hf 7 _ rfl _ (by lay_off)
+  | exact fill_be32_at _ _ _ $hf 8 _ rfl _ (by lay_off)
+  | exact fill_be32_at _ _ _ $hf 9 _ rfl _ (by lay_off)
+  | exact fill_be32_at _ _ _ $hf 10 _ rfl _ (by lay_off)
+  | exact fill_be32_at _ _ _ $hf 11 _ rfl _ (by lay_off)))
+
+/-- goal `FieldAt v (chunks.flatten ++ tail) ⟨name, off, w, .num⟩` for an `append`-built encoding -/
+macro "lay_chunk" : tactic => `(tactic| (
+  show beAt _ _ _ = _ % 2 ^ (8 * _)
+  first
+  | (rw [← n8_toNat]; first
+    | exact chunk_u8 _ _ 0 _ rfl _ (by lay_sum)
+    | exact chunk_u8 _ _ 1 _ rfl _ (by lay_sum)
+    | exact chunk_u8 _ _ 2 _ rfl _ (by lay_sum)
+    | exact chunk_u8 _ _ 3 _ rfl _ (by lay_sum)
+    | exact chunk_u8 _ _ 4 _ rfl _ (by lay_sum)
+    | exact chunk_u8 _ _ 5 _ rfl _ (by lay_sum)
+    | exact chunk_u8 _ _ 6 _ rfl _ (by lay_sum)
+    | exact chunk_u8 _ _ 7 _ rfl _ (by lay_sum)
+    | exact chunk_u8 _ _ 8 _ rfl _ (by lay_sum)
+    | exact chunk_u8 _ _ 9 _ rfl _ (by lay_sum)
+    | exact chunk_u8 _ _ 10 _ rfl _ (by lay_sum)
+    | exact chunk_u8 _ _ 11 _ rfl _ (by lay_sum)
+    | exact chunk_u8 _ _ 12 _ rfl _ (by lay_sum)
+    | exact chunk_u8 _ _ 13 _ rfl _ (by lay_sum))
+  | (rw [← n16_toNat]; first
+    | exact chunk_be16 _ _ 0 _ rfl _ (by lay_sum)
+    | exact chunk_be16 _ _ 1 _ rfl _ (by lay_sum)
+    | exact chunk_be16 _ _ 2 _ rfl _ (by lay_sum)
+    | exact chunk_be16 _ _ 3 _ rfl _ (by lay_sum)
+    | exact chunk_be16 _ _ 4 _ rfl _ (by lay_sum)
+    | exact chunk_be16 _ _ 5 _ rfl _ (by lay_sum)
+    | exact chunk_be16 _ _ 6 _ rfl _ (by lay_sum)
+    | exact chunk_be16 _ _ 7 _ rfl _ (by lay_sum)
+    | exact chunk_be16 _ _ 8 _ rfl _ (by lay_sum)
+    | exact chunk_be16 _ _ 9 _ rfl _ (by lay_sum)
+    | exact chunk_be16 _ _ 10 _ rfl _ (by lay_sum)
+    | exact chunk_be16 _ _ 11 _ rfl _ (by lay_sum)
+    | exact chunk_be16 _ _ 12 _ rfl _ (by lay_sum)
+    | exact chunk_be16 _ _ 13 _ rfl _ (by lay_sum))
+  | (rw [← n32_toNat]; first
+    | exact chunk_be32 _ _ 0 _ rfl _ (by lay_sum)
+    | exact chunk_be32 _ _ 1 _ rfl _ (by lay_sum)
+    | exact chunk_be32 _ _ 2 _ rfl _ (by lay_sum)
+    | exact chunk_be32 _ _ 3 _ rfl _ (by lay_sum)
+    | exact chunk_be32 _ _ 4 _ rfl _ (by lay_sum)
+    | exact chunk_be32 _ _ 5 _ rfl _ (by lay_sum)
+    | exact chunk_be32 _ _ 6 _ rfl _ (by lay_sum)
+    | exact chunk_be32 _ _ 7 _ rfl _ (by lay_sum)
+    | exact chunk_be32 _ _ 8 _ rfl _ (by lay_sum)
+    | exact chunk_be32 _ _ 9 _ rfl _ (by lay_sum)
+    | exact chunk_be32 _ _ 10 _ rfl _ (by lay_sum)
+    | exact chunk_be32 _ _ 11 _ rfl _ (by lay_sum)
+    | exact chunk_be32 _ _ 12 _ rfl _ (by lay_sum)
+    | exact chunk_be32 _ _ 13 _ rfl _ (by lay_sum))
+  | (rw [← n64_toNat]; first
+    | exact chunk_be64 _ _ 0 _ rfl _ (by lay_sum)
+    | exact chunk_be64 _ _ 1 _ rfl _ (by lay_sum)
+    | exact chunk_be64 _ _ 2 _ rfl _ (by lay_sum)
+    | exact chunk_be64 _ _ 3 _ rfl _ (by lay_sum)
+    | exact chunk_be64 _ _ 4 _ rfl _ (by lay_sum)
+    | exact chunk_be64 _ _ 5 _ rfl _ (by lay_sum)
+    | exact chunk_be64 _ _ 6 _ rfl _ (by lay_sum)
+    | exact chunk_be64 _ _ 7 _ rfl _ (by lay_sum)
+    | exact chunk_be64 _ _ 8 _ rfl _ (by lay_sum)
+    | exact chunk_be64 _ _ 9 _ rfl _ (by lay_sum)
+    | exact chunk_be64 _ _ 10 _ rfl _ (by lay_sum)
+    | exact chunk_be64 _ _ 11 _ rfl _ (by lay_sum)
+    | exact chunk_be64 _ _ 12 _ rfl _ (by lay_sum)
+    | exact chunk_be64 _ _ 13 _ rfl _ (by lay_sum))))
 
 end OFV.Model
